@@ -528,29 +528,30 @@ theorem scan_unk (T : PTables) (st : PState) (src : Str) (names : List Str) (vs 
 def addU (u : List Str) (n : Str) : List Str := if u.contains n then u else u ++ [n]
 
 /-- what `expandSequence` makes of the buffer before the blank-line removal: a macro token becomes
-    an Action token and the space / comment / Action / void tokens behind it are dropped
-    (`skip` = directly behind a macro token) -/
+    an Action token and the space / comment / void tokens behind it are dropped, up to the next
+    Action or Language token (`skip_space(stop_lang=True, stop_action=True)`;
+    `skip` = directly behind a macro token) -/
 def cwErase : Bool → List Tok → List Tok
   | _, [] => []
   | skip, t :: rest =>
     if isMacroTok t then mkAction t.pos :: cwErase true rest
-    else if skip && (isSpaceTok t && !isLangK t) then cwErase true rest
+    else if skip && (isSpaceTok t && !isLangK t && !(t.kind == .action)) then cwErase true rest
     else t :: cwErase false rest
 
-theorem cwErase_true : ∀ toks : List Tok, cwErase true toks = cwErase false (skipSpaceStopLang toks)
+theorem cwErase_true : ∀ toks : List Tok, cwErase true toks = cwErase false (skipSpaceStopLangAct toks)
   | [] => rfl
   | t :: rest => by
     by_cases hm : isMacroTok t = true
     · have hk : t.kind = .xmacro := by simpa [isMacroTok] using hm
       have hs : isSpaceTok t = false := by simp [isSpaceTok, hk]
-      simp [cwErase, hm, skipSpaceStopLang, hs]
-    · by_cases hd : (isSpaceTok t && !isLangK t) = true
+      simp [cwErase, hm, skipSpaceStopLangAct, hs]
+    · by_cases hd : (isSpaceTok t && !isLangK t && !(t.kind == .action)) = true
       · have ih := cwErase_true rest
-        simp only [skipSpaceStopLang] at ih
-        simp only [cwErase, hm, hd, skipSpaceStopLang, List.dropWhile_cons, Bool.and_self, if_true,
+        simp only [skipSpaceStopLangAct] at ih
+        simp only [cwErase, hm, hd, skipSpaceStopLangAct, List.dropWhile_cons, Bool.and_self, if_true,
           Bool.false_eq_true, if_false]
         exact ih
-      · simp only [cwErase, hm, hd, skipSpaceStopLang, List.dropWhile_cons, Bool.and_false,
+      · simp only [cwErase, hm, hd, skipSpaceStopLangAct, List.dropWhile_cons, Bool.and_false,
           Bool.false_eq_true, if_false]
 
 theorem UnkSeq.tail {T : PTables} {st : PState} {t : Tok} {rest : List Tok} (h : UnkSeq T st (t :: rest)) :
@@ -594,18 +595,18 @@ theorem length_le_cost : ∀ toks : List Tok, toks.length ≤ cost toks
     have := length_le_cost rest
     simp only [cost, List.length_cons]; split <;> omega
 
-theorem macroNames_skip : ∀ toks : List Tok, macroNames (skipSpaceStopLang toks) = macroNames toks
+theorem macroNames_skip : ∀ toks : List Tok, macroNames (skipSpaceStopLangAct toks) = macroNames toks
   | [] => rfl
   | t :: rest => by
-    simp only [skipSpaceStopLang, List.dropWhile_cons]
+    simp only [skipSpaceStopLangAct, List.dropWhile_cons]
     split
     · rename_i h
       have hs : isSpaceTok t = true := by
-        simp only [Bool.and_eq_true] at h; exact h.1
+        simp only [Bool.and_eq_true] at h; exact h.1.1
       have hm : isMacroTok t = false := by
         cases hk : t.kind <;> simp_all [isSpaceTok, isMacroTok]
       have := macroNames_skip rest
-      simp only [skipSpaceStopLang] at this
+      simp only [skipSpaceStopLangAct] at this
       rw [this]
       simp [macroNames, hm]
     · rfl
@@ -634,7 +635,7 @@ theorem seq_action_step (T : PTables) (fuel : Nat) (p : Nat) (rest : Buf) (envSt
 theorem expandMacro_unknown (T : PTables) (fuel : Nat) (rest : Buf) (tok : Tok) (st : PState)
     (h : lookupMacro st tok.txt = none) :
     expandMacro T (fuel + 1) rest tok false st
-      = .ok (([mkAction tok.pos], skipSpaceStopLang rest),
+      = .ok (([mkAction tok.pos], skipSpaceStopLangAct rest),
              { st with unknowns := addU st.unknowns tok.txt }) := by
   rw [expandMacro.eq_2]
   show M.bind' M.get _ st = _
@@ -647,7 +648,7 @@ theorem expandMacro_unknown (T : PTables) (fuel : Nat) (rest : Buf) (tok : Tok) 
 theorem seq_cw_step (T : PTables) (fuel : Nat) (tok : Tok) (rest : Buf) (envStop : Option Str)
     (out : List Tok) (st : PState) (h : CwTokOk st tok) (ha : noEmptyActive T st = true) :
     expandSequence T (fuel + 2) (tok :: rest) envStop out st
-      = expandSequence T fuel (skipSpaceStopLang rest) envStop (out ++ [mkAction tok.pos])
+      = expandSequence T fuel (skipSpaceStopLangAct rest) envStop (out ++ [mkAction tok.pos])
           { st with unknowns := addU st.unknowns tok.txt } := by
   rw [expandSequence.eq_3]
   show M.bind' M.get _ st = _
@@ -713,17 +714,17 @@ theorem seq_unk (T : PTables) (envStop : Option Str) :
         simp only [cost, hm, if_true] at hf
         obtain ⟨f, rfl⟩ : ∃ f, fuel = f + 2 := ⟨fuel - 2, by omega⟩
         rw [seq_cw_step T f t ts envStop out st hcw ha]
-        have hlen : (skipSpaceStopLang ts).length ≤ n := by
-          have : (skipSpaceStopLang ts).length ≤ ts.length :=
+        have hlen : (skipSpaceStopLangAct ts).length ≤ n := by
+          have : (skipSpaceStopLangAct ts).length ≤ ts.length :=
             (List.dropWhile_sublist _).length_le
           simp only [List.length_cons] at hn; omega
-        have hcost : cost (skipSpaceStopLang ts) + 1 ≤ f := by
-          have := cost_dropWhile (fun t => isSpaceTok t && !isLangK t) ts
-          simp only [skipSpaceStopLang]; omega
-        have hseq' : UnkSeq T { st with unknowns := addU st.unknowns t.txt } (skipSpaceStopLang ts) :=
+        have hcost : cost (skipSpaceStopLangAct ts) + 1 ≤ f := by
+          have := cost_dropWhile (fun t => isSpaceTok t && !isLangK t && !(t.kind == .action)) ts
+          simp only [skipSpaceStopLangAct]; omega
+        have hseq' : UnkSeq T { st with unknowns := addU st.unknowns t.txt } (skipSpaceStopLangAct ts) :=
           UnkSeq.congr (st := st) (st' := { st with unknowns := addU st.unknowns t.txt }) rfl rfl
-            (UnkSeq.dropWhile (fun t => isSpaceTok t && !isLangK t) hseq.2)
-        rw [ih (skipSpaceStopLang ts) hlen f (out ++ [mkAction t.pos])
+            (UnkSeq.dropWhile (fun t => isSpaceTok t && !isLangK t && !(t.kind == .action)) hseq.2)
+        rw [ih (skipSpaceStopLangAct ts) hlen f (out ++ [mkAction t.pos])
           { st with unknowns := addU st.unknowns t.txt } hcost hseq'
           ((noEmptyActive_congr T st _ rfl).trans ha), macroNames_skip]
         simp only [cwErase, hm, if_true, cwErase_true, macroNames, List.filter_cons,
@@ -866,7 +867,7 @@ theorem cwErase_rel : ∀ (toks : List Tok), (∀ t ∈ toks, isSpaceTok t = tru
       split
       · rename_i hd
         simp only [Bool.and_eq_true] at hd
-        have hbl := hb t (List.mem_cons_self ..) hd.2.1
+        have hbl := hb t (List.mem_cons_self ..) hd.2.1.1
         rw [visTok_blank t hbl, List.nil_append]
         exact ⟨(ih true).1, List.sublist_append_of_sublist_right (ih true).2⟩
       · rw [Vis_cons, Txt_cons, (ih false).1]
